@@ -254,3 +254,12 @@ def replay(ctx, data):
         if mrep not in ("(unsupported)", "(bad-args)") and mrep.startswith("(ok ") and d.ok and O.reply_decode(d) != mrep:
             return False
     return True
+
+
+# W22 (RESERVED / NRC-CONST as constructors: Desc2R, Lay2.skip wired in; A_UNICODE2STRING low-high leaf) — appended
+LEAN_TARGETS = LEAN_TARGETS + ["OdxVerif.Props.C02Nested2R"]
+THEOREMS = THEOREMS + [P + t for t in ["C02_bit_exact_nested2R", "C02_overlap_iff_nested2R", "C02_skipped_no_entry",
+                                       "C02_unclaimed_field_reads_zero", "Foot2.skip", "Desc2R.foot", "Descs2R.footTop",
+                                       "descs2R_encodeMessage", "field_reads_zero", "reserved_reads_zero", "Comp.ofU16LE_foot",
+                                       "Descs2R.padOk_of_check", "Descs2R.ofBase_lay", "exRes_layout", "exResOverlap_layout",
+                                       "exU16Req_layout"]]
